@@ -1,4 +1,5 @@
 import AmrK.Names
+import AmrK.MeshEqProofs
 import AmrK.CellHRewriteProofs
 import AmrK.HeaderRewriteProofs
 import AmrK.WritersSizes
@@ -86,5 +87,25 @@ example :
       "1\n1\n1\n0\n(2 0\n((0,0,0) (3,3,3) (0,0,0))\n((4,0,0) (7,3,3) (0,0,0))\n)\n2\nFabOnDisk: Cell_D_00001 0\nFabOnDisk: Cell_D_00000 0\n\n2,1\n-3.0,\n-6.0,\n\n2,1\n-9.0,\n-1e3,\n".toUTF8.toList =
     some "1\n1\n3\n0\n(2 0\n((0,0,0) (3,3,3) (0,0,0))\n((4,0,0) (7,3,3) (0,0,0))\n)\n2\nFabOnDisk: Cell_D_00000 0\nFabOnDisk: Cell_D_00000 640\n\n2,3\n2.0,1.0,-3.0,\n5.0,4.0,-6.0,\n\n2,3\n8.0,7.0,-9.0,\n1e2,1e1,-1e3,\n".toUTF8.toList := by
   decide +kernel
+
+/-- **the compatibility test accepts the same mesh** (`PlotfileCooker.__eq__` = `MeshEq.eq`, the executable definition compared
+    with `p == q` on every generated pair, matched and mismatched): two readers with the same level limit whose levels up to
+    the limit carry the same physical bounds and index ranges compare equal, whatever their fields, files and offsets are -/
+theorem same_mesh_accepted (lim : Nat) (A B : List MeshEq.Lv) (h : A.take (lim + 1) = B.take (lim + 1)) :
+    MeshEq.eq lim lim A B = true :=
+  MeshEq.eq_same_mesh lim A B h
+
+/-- **... and refuses inputs whose level count or boxes differ**: another level limit, a level with another number of boxes,
+    or a single differing index range makes the comparison false (so combine raises before anything is written) -/
+theorem different_mesh_refused (limA limB : Nat) (A B : List MeshEq.Lv)
+    (h : limA ≠ limB ∨ ∃ (lv : Nat) (a b : MeshEq.Lv), lv ≤ limA ∧ A[lv]? = some a ∧ B[lv]? = some b ∧
+      (a.bounds.length ≠ b.bounds.length ∨ a.idx ≠ b.idx)) :
+    MeshEq.eq limA limB A B = false :=
+  MeshEq.eq_refuses limA limB A B h
+
+example :
+    let a : MeshEq.Lv := ⟨[[(0, 1), (0, 1)], [(1, 2), (0, 1)]], [([0, 0], [7, 7]), ([8, 0], [15, 7])]⟩
+    let b : MeshEq.Lv := ⟨[[(0, 1), (0, 1)], [(1, 2), (0, 1)]], [([0, 0], [7, 7]), ([8, 0], [15, 8])]⟩
+    MeshEq.eq 0 0 [a] [a] = true ∧ MeshEq.eq 0 0 [a] [b] = false ∧ MeshEq.eq 0 1 [a] [a] = false := by decide +kernel
 
 end C06
